@@ -264,14 +264,69 @@ class Translator:
         assignments `<target> = ...` (source order); the k-th becomes `def <coq_name>(params): <target> = ...; return <target>`."""
         ex = opts['extract']
         tgt = ex['target']
+
+        def dotted(n):
+            parts = []
+            while isinstance(n, ast.Attribute):
+                parts.append(n.attr)
+                n = n.value
+            return '.'.join([n.id] + parts[::-1]) if isinstance(n, ast.Name) else None
+        # a dotted target (`obj.field = ...`, C04) matches attribute stores; a plain one matches name stores only
         found = sorted((n for n in ast.walk(fnode) if isinstance(n, ast.Assign) and len(n.targets) == 1
-                        and isinstance(n.targets[0], ast.Name) and n.targets[0].id == tgt), key=lambda n: (n.lineno, n.col_offset))
+                        and ((isinstance(n.targets[0], ast.Name) and n.targets[0].id == tgt)
+                             or ('.' in tgt and isinstance(n.targets[0], ast.Attribute) and dotted(n.targets[0]) == tgt))),
+                       key=lambda n: (n.lineno, n.col_offset))
         if len(found) != ex['count']:
             raise TranslateError('%s: expected %d assignments to %s, found %d' % (qual, ex['count'], tgt, len(found)))
         src = 'def %s(%s):\n    pass\n' % (opts['coq_name'], ', '.join(ex['params']))
         fn = ast.parse(src).body[0]
-        fn.body = [found[ex['index']], ast.Return(value=ast.Name(id=tgt, ctx=ast.Load()))]
-        return fn
+        stmt = found[ex['index']]
+        ret = tgt
+        if ex.get('attrs') or ex.get('lens') or ex.get('masked_set'):
+            # statement-level rewrites (C04; all exact for the elementwise reading of a vectorised statement):
+            #   attrs      {'obj.field': name}   reads/stores of that attribute become the local/parameter `name`
+            #   lens       {'v': name}           len(v) becomes the scalar parameter `name` (the vector itself is read elementwise)
+            #   masked_set True                  X.at[M].set(V) becomes np.where(M, V', X), V' = V with X[M] replaced by X
+            #                                    (same X and M syntactically; X, M, V of one shape)
+            attrs, lens = ex.get('attrs', {}), ex.get('lens', {})
+            import copy
+            stmt = copy.deepcopy(stmt)
+
+            class RW(ast.NodeTransformer):
+                def visit_Attribute(self, n):
+                    d = dotted(n)
+                    if d in attrs:
+                        return ast.copy_location(ast.Name(id=attrs[d], ctx=n.ctx), n)
+                    return self.generic_visit(n)
+
+                def visit_Call(self, n):
+                    if isinstance(n.func, ast.Name) and n.func.id == 'len' and len(n.args) == 1 and not n.keywords \
+                            and isinstance(n.args[0], ast.Name) and n.args[0].id in lens:
+                        return ast.copy_location(ast.Name(id=lens[n.args[0].id], ctx=ast.Load()), n)
+                    f = n.func
+                    if ex.get('masked_set') and isinstance(f, ast.Attribute) and f.attr == 'set' and isinstance(f.value, ast.Subscript) \
+                            and isinstance(f.value.value, ast.Attribute) and f.value.value.attr == 'at' and len(n.args) == 1 and not n.keywords:
+                        X, Mk = f.value.value.value, f.value.slice
+                        xd, md = ast.dump(X), ast.dump(Mk)
+
+                        class Sub(ast.NodeTransformer):
+                            def visit_Subscript(self, m):
+                                if ast.dump(m.value) == xd and ast.dump(m.slice) == md:
+                                    return copy.deepcopy(X)
+                                return self.generic_visit(m)
+                        V = Sub().visit(copy.deepcopy(n.args[0]))
+                        w = ast.parse('np.where(a, b, c)').body[0].value
+                        w.args = [self.visit(copy.deepcopy(Mk)), self.visit(V), self.visit(copy.deepcopy(X))]
+                        return ast.copy_location(w, n)
+                    return self.generic_visit(n)
+            stmt = ast.fix_missing_locations(RW().visit(stmt))
+            ret = attrs.get(tgt, tgt)
+            if '.' in ret:
+                raise TranslateError('%s: extract target %s is an attribute without a local name in attrs' % (qual, tgt))
+        elif '.' in tgt:
+            raise TranslateError('%s: extract target %s is an attribute without a local name in attrs' % (qual, tgt))
+        fn.body = [stmt, ast.Return(value=ast.Name(id=ret, ctx=ast.Load()))]
+        return ast.fix_missing_locations(fn)
 
     def find_def(self, tree, qual):
         parts = qual.split('.')
@@ -334,6 +389,14 @@ class Translator:
         if body and isinstance(body[0], ast.Expr) and isinstance(body[0].value, ast.Constant) \
                 and isinstance(body[0].value.value, str):
             body = body[1:]
+        # opts['prefix'] = dict(upto=<local name>, returns=[local names]): translate only the leading statements of the body, up to and
+        # including the FIRST top-level assignment to `upto`, and return the listed locals (theorems about the first stage of a long routine)
+        if opts.get('prefix'):
+            cut = [i for i, st in enumerate(body) if isinstance(st, ast.Assign) and len(st.targets) == 1
+                   and isinstance(st.targets[0], ast.Name) and st.targets[0].id == opts['prefix']['upto']]
+            if not cut:
+                raise TranslateError('%s: prefix: no top-level assignment to %s' % (qual, opts['prefix']['upto']))
+            body = body[:cut[0] + 1] + ast.parse('return (%s)' % ', '.join(opts['prefix']['returns'])).body
         ret = self.block(body, lines, qual)
         if ret is None:
             raise TranslateError('%s: no return' % qual)
@@ -857,6 +920,11 @@ class Translator:
                     raise TranslateError('builtin %s only for two scalars at line %d' % (name, e.lineno))
             c = '(nltb %s %s)' % ((b.data, a.data) if name == 'min' else (a.data, b.data))
             return scalar('(if %s then %s else %s)' % (c, b.data, a.data))
+        # python builtin abs(x) on a numeric value (jax arrays dispatch it to absolute)
+        if base is None and name == 'abs' and name not in self.env and len(e.args) == 1 and not kw:
+            v = self.expr(e.args[0])
+            self.need(v, 'S')
+            return self.map1(lambda t: '(nabs %s)' % t, v)
         if base is None and name == 'if_then_else':
             c, a, b = [self.expr(x) for x in e.args]
             return self.select(c, a, b)
